@@ -854,3 +854,23 @@ Proof.
   intros O L St. pose proof (ow_pc _ _ _ O i f L) as (_ & _ & _ & P4). destruct (fpc f); cbn [stvF] in P4; try exact Logic.I;
     rewrite P4 in St by reflexivity; discriminate.
 Qed.
+
+(* ---------- C10 for the Mutex, every schedule: when every future has been dropped or never polled, no guard is alive and
+   nothing is in flight, the mutex is as if never used: the word is 0 and lock_ops has no entry ---------- *)
+Theorem mutex_sched_no_trace sched n : let s := run true n sched in
+  (forall f, In f (g_futs s) -> fpc f = PIdle \/ fpc f = PGone) -> g_guards s = 0 -> g_w s = 0 /\ g_ev s = [].
+Proof.
+  intros s ALL G0. destruct (run_inv sched n) as (O & (W1 & _) & _). fold s in O, W1. split.
+  - assert (S0 : cntb fstv (g_futs s) = 0).
+    { destruct (N.eq_dec (cntb fstv (g_futs s)) 0) as [E|NE]; [exact E|]. exfalso.
+      destruct (cntb_pos_ex fstv (g_futs s) ltac:(lia)) as (i & f & L & St).
+      pose proof (starved_pcs s i f O L St) as P. destruct (ALL f (nth_error_In _ _ L)) as [E|E]; rewrite E in P; exact P. }
+    assert (H0 : cntb holdpc (g_futs s) = 0).
+    { destruct (N.eq_dec (cntb holdpc (g_futs s)) 0) as [E|NE]; [exact E|]. exfalso.
+      destruct (cntb_pos_ex holdpc (g_futs s) ltac:(lia)) as (i & f & L & Hf).
+      rewrite holdpc_eq in Hf. destruct (ALL f (nth_error_In _ _ L)) as [E|E]; rewrite E in Hf; discriminate. }
+    lia.
+  - destruct (g_ev s) as [|e r] eqn:Q; [reflexivity|]. exfalso.
+    destruct (ow_owner _ _ _ O e ltac:(rewrite Q; left; reflexivity)) as (i & f & L & Ls & _).
+    pose proof (ow_pc _ _ _ O i f L) as (P1 & _). destruct (ALL f (nth_error_In _ _ L)) as [E|E]; rewrite E in P1; cbn in P1; rewrite P1 in Ls by reflexivity; discriminate.
+Qed.
